@@ -86,6 +86,7 @@ class Unit:
         self.properties = self.cfg["properties"]
         self.package = self.cfg.get("package")
         self.cargo_args = self.cfg.get("cargo_args", [])
+        self.playback_cargo_args = self.cfg.get("playback_cargo_args", [])
         self.splices = self.cfg.get("splice", [])
         self.anchors = self.cfg.get("anchor", [])
         self.cargo_deps = self.cfg.get("cargo_dep", [])
@@ -447,7 +448,7 @@ def native_playback(ov, unit, harness_file_rel, module, test_src, test_name, tim
     s2 = s[:-1] + "\n" + test_src + "\n}\n"
     open(p, "w").write(s2)
     try:
-        cmd = ["cargo", "kani", "playback", "-Z", "concrete-playback", "-p", unit.package] + unit.cargo_args + ["--", test_name, "--exact"]
+        cmd = ["cargo", "kani", "playback", "-Z", "concrete-playback", "-p", unit.package] + unit.cargo_args + unit.playback_cargo_args + ["--", test_name, "--exact"]
         # `--exact` needs the full path; fall back to substring match
         cmd = cmd[:-1]
         r = sh(cmd, cwd=ov, env={**kani_env(), "RUST_BACKTRACE": "0"}, timeout=timeout)
